@@ -87,8 +87,11 @@ def build(case):
         # the observed framer is a moot framer; two scheduled framers each run their own clone of it, under the same
         # clone tag: every clone keeps its own marks and must behave as the framer itself would
         m["sched"] = "moot"
-        for h in ("hA", "hB"):
-            framers.append(P.framer(h, [P.frame("h0", [{"v": "aux", "aux": "m", "as": case["twin"]}])]))
+        if case["twin"] == "same":      # both clones under one frame of one framer
+            framers.append(P.framer("hA", [P.frame("h0", [{"v": "aux", "aux": "m", "as": "ka"}, {"v": "aux", "aux": "m", "as": "kb"}])]))
+        else:
+            for h in ("hA", "hB"):
+                framers.append(P.framer(h, [P.frame("h0", [{"v": "aux", "aux": "m", "as": case["twin"]}])]))
     inits = [[".w", {"value": 0}]]
     if gates:
         gk = P.framer("gk", [P.frame("g0", [{"v": "inc", "dst": ".g", "data": {"value": 1}, "ctx": "recur"}])], order="front")
@@ -227,8 +230,10 @@ def check_case(ctx, case):
         return
     if case.get("twin"):
         ctx.hit("twin_clone_histories")
-        for h in ("hA", "hB"):
-            who = "%s_%s" % (h, "m1" if case["twin"] == "mine" else case["twin"])
+        whos = ["hA_ka", "hA_kb"] if case["twin"] == "same" else [
+            "%s_%s" % (h, "m1" if case["twin"] == "mine" else case["twin"]) for h in ("hA", "hB")]
+        ctx.hit("twin_clones_" + ("in_one_frame" if case["twin"] == "same" else "in_two_framers"))
+        for who in whos:
             _judge(ctx, case, text, [t["framers"][who]["active"] for t in res.ticks[1:]], exp, stats, who)
         return
     _judge(ctx, case, text, [t["framers"]["m"]["active"] for t in res.ticks[1:]], exp, stats, "m")
@@ -347,5 +352,5 @@ def random_case(rng, opts, gated=None, exitwrites=None, twin=False):
     case = {"frames": frames, "plan": plan, "writer": rng.choice(["front", "back"]), "gates": gates, "exitw": exitw}
     if twin:
         case["exitw"] = {}          # the clones' own writes would be updates for each other
-        case["twin"] = rng.choice(["mine", "w", "mine"])
+        case["twin"] = rng.choice(["mine", "w", "same"])
     return case
